@@ -593,7 +593,11 @@ PLAINTEXTS = ["s3cret", "pass word", "x", "0", "a much longer secret value "
               "that spans more than one block line when wrapped",
               "ENC[looks-like]", "true", "p@$$:w0rd#1",
               "two\nlines", "-----BEGIN CERT-----\r\nQUJDREVGRw==\r\n"
-              "-----END CERT-----", "tab\there"]
+              "-----END CERT-----", "tab\there",
+              # blanks at either end belong to the secret (a trailing line
+              # break would be ambiguous in eyaml's own output protocol)
+              "  indented secret", "\tleading tab", "\n leading newline",
+              "trailing space ", "trailing tab\t"]
 NEAR_MISS = ["ENC (not)", "xENC[PKCS7,abc]", "enc[PKCS7,abc]",
              "see ENC[ later", "ENCRYPTED"]
 
